@@ -8,7 +8,7 @@ import hashlib, random, struct
 import tsh
 from tsh import F, T, SigningKey, nb, Pins
 
-T.time = lambda: Pins.now          # builders embed int(time()) + timeout
+T.time = lambda: Pins.now + Pins.frac          # builders embed int(time()) + timeout; the clock has a fractional part
 from tapescript import AMHL as _AM
 _AM.token_bytes = tsh._token_bytes
 
@@ -356,11 +356,16 @@ def c04(rng):
     if kind == 'prioritized':
         lock, unlocks = T.make_merklized_script_prioritized(list(srcs))
         tree = T.make_script_tree_prioritized(list(srcs))
+        out.append(('MT', 'TB prioritized 0 ' + ' '.join(Script.from_src(x).bytes.hex() for x in srcs),
+                    'ok %s %s' % (bs(lock).hex(), ','.join(bs(u).hex() for u in unlocks))))
     elif kind == 'balanced':
         Pins.ridx = 1000
         lock, unlocks = T.make_merklized_script_balanced(list(srcs))
         Pins.ridx = 1000
         tree = T.make_script_tree_balanced(list(srcs))
+        fills = [l.script.bytes.hex() for l in leaves_of(tree)][len(srcs):]
+        out.append(('MT', 'TB balanced %d %s' % (len(fills), ' '.join(fills + [Script.from_src(x).bytes.hex() for x in srcs])),
+                    'ok %s %s' % (bs(lock).hex(), ','.join(bs(u).hex() for u in unlocks))))
     elif kind == 'grown-prioritized':
         # make_script_tree_prioritized(more, tree=existing) after the existing tree has been used
         if n < 3:
